@@ -627,4 +627,18 @@ def rule_h(repo, res, m):
                 b = ds[0] if len(ds) == 1 else b
             base_ok = norm(b) in ("os.path.splitext(%s)[0]" % arg, "splitext(%s)[0]" % arg, "str(Path(%s).with_suffix(''))" % arg, "str(pathlib.Path(%s).with_suffix(''))" % arg)
     res.check(ok, "C25.h", "names:json-then-raw-of-one-base", where, "the function must return (base + '.json', base + '.raw') for one base name", by="('{}.json', '{}.raw') of the same base")
+    # since the extension of the *formatted* name is replaced, a pattern whose picture index lands in the extension
+    # ('pic.%d') names every picture alike: the command must refuse it before decoding (D10)
+    vm, pa = repo.func("scripts.vc2_bitstream_validator:parse_args")
+    refused = False
+    for i in ast.walk(pa):
+        if isinstance(i, ast.If) and isinstance(i.test, ast.Compare) and len(i.test.ops) == 1 and isinstance(i.test.ops[0], ast.Eq):
+            l, r = i.test.left, i.test.comparators[0]
+
+            def names_of(e, k):
+                return isinstance(e, ast.Call) and dotted(e.func) in ("get_metadata_and_picture_filenames", "os.path.splitext", "splitext") and len(e.args) == 1 and norm(e.args[0]).replace(" ", "") in ("args.output%%(%d,)" % k, "args.output%%%d" % k)
+
+            if ((names_of(l, 0) and names_of(r, 1)) or (names_of(l, 1) and names_of(r, 0))) and any(isinstance(c, ast.Call) and norm(c.func) == "parser.error" for b in i.body for c in ast.walk(b)):
+                refused = True
+    res.check(refused, "C25.h", "names:patterns-naming-every-picture-alike-are-refused", "%s:parse_args" % vm.rel, "parse_args does not compare the file names formed from `args.output % 0` and `args.output % 1`: with the index in the extension ('pic.%d') both are 'pic.raw'/'pic.json', every picture overwrites the previous one and the command still exits 0", by="if names(output % 0) == names(output % 1): parser.error(...)")
     res.check(base_ok, "C25.h", "names:extension-stripped-from-last-component-only", where, "the base name must be os.path.splitext(name)[0]: string splitting on '.' also cuts at a dot in a directory name ('out.v1/picture_%d'), which sends every picture to one file outside the requested directory", by="os.path.splitext(name)[0]")
